@@ -107,6 +107,11 @@ class CTx:
           for nm, (f, ty) in zip([x.id for x in t.elts], [('cb_lo', 'S'), ('cb_hi', 'S'), ('cb_s', 'N'), ('cb_e', 'N')]):
             env2[nm] = Val('(%s %s)' % (f, v.term), ty, v.loops)
           return self.block(rest, env2)
+        if v.ty == 'PAIR' and len(t.elts) == 2:
+          env2 = dict(env)
+          for nm, f in zip([x.id for x in t.elts], ['fst', 'snd']):
+            env2[nm] = Val('(%s %s)' % (f, v.term), 'S', v.loops)
+          return self.block(rest, env2)
         U(s, 'unpacking of %s' % v.ty)
       if isinstance(t, ast.Name):
         # mask = np.zeros(len(self)); mask[s:e] = 1      /      col_jac = np.zeros(shape[0]); col_jac[labelled_set] = 1
